@@ -262,6 +262,18 @@ ROUND7 = {
            "that the code as written equals the model (same checks, order and exception classes) for every configuration. Verbosity (model of utils.logging.verbosity_to_loguru_level and Solver.set_verbosity): loguruLevel_ok_iff (accepted exactly on integers 0..4; TypeError for "
            "non-integers, ValueError outside), levelName_injective, verbosity_name_roundtrip (names in any letter case denote the level they are installed for), "
            "setVerbosity_name_eq_int, setVerbosity_ok; tied to the real functions on integers -3..8, non-integers, bool, and 22 names (stored integer and installed loguru handler level).",
+    "C06": " Round 7/8: the solver's own first sweeps from integer- / float32-typed initial estimates compared with the model (site of the defect repaired in /repo a2f4642).",
+    "C09": " Round 8: interruptions 1-3 iterations before the uninterrupted run's convergence; closed form shuffled_resume_within_bound_closed.",
+    "C10": " Round 7: every checkpoint directory has been used before by a solver of the same classes with other parameters.",
+    "C13": "",
+    "C14": " Round 8: twins built through a configuration object that is changed after construction.",
+    "C15": " Round 7/8: twins in the same process (same structural parameters, other real-valued coefficients; configuration object changed after construction).",
+    "C16": " Round 7: one-parameter twins of every class built in the same process.",
+    "C17": " Round 7/8: twin problems (same class and array shapes, other index map) in one process; problems with 127..300 random events.",
+    "C19": " Round 7: boxes whose extents (127..129, 255..257, 2^15, 2^16) or coordinates lie at the boundaries of the narrow integer types.",
+    "C02": " Round 7: tiny-unit problems (everything scaled by 2^-36), integer-typed initial estimates, problem classes that inherit / mix in their methods.",
+    "C03": " Round 7: closed form semiasync_bound_every_partition_closed.",
+    "C07": " Round 7: forced period-1 discounted runs with one sweep per call.",
 }
 for _k, _v in ROUND7.items():
     CHECKS[_k]["text"] += _v
